@@ -11,22 +11,14 @@
 // read from stdin (one JSON document per line).
 #![allow(dead_code)]
 
-use crate::account::{Account, ExternalAccount};
-use crate::acme_proto::structs::Challenge;
-use crate::certificate::Certificate;
-use crate::duration::parse_duration;
-use crate::endpoint::Endpoint;
-use crate::jws::{encode_jwk, encode_kid, encode_kid_mac};
-use crate::main_event_loop::MainEventLoop;
-use crate::storage::{self, FileManager};
-use acme_common::crypto::{gen_keypair, JwsSignatureAlgorithm, KeyPair, KeyType};
-use async_lock::RwLock;
+//
+// The sub-commands live in independent modules (each with its own imports of
+// first-party items) guarded by `--cfg verif_no_<group>`: when a change to the
+// repository breaks the compilation of one group, the builder of the checks
+// leaves that group out and everything else keeps working.
 use serde_json::{json, Value};
-use std::collections::HashMap;
 use std::io::{BufRead, Write};
-use std::os::unix::fs::MetadataExt;
-use std::sync::Arc;
-use std::time::{Duration, Instant, SystemTime, UNIX_EPOCH};
+use std::time::{Duration, SystemTime, UNIX_EPOCH};
 
 fn out(v: &Value) {
 	let stdout = std::io::stdout();
@@ -85,359 +77,33 @@ fn u64_of(v: &Value, k: &str, d: u64) -> u64 {
 pub fn main() {
 	let cmd = std::env::var("ACMED_VERIF_RUN").unwrap_or_default();
 	match cmd.as_str() {
-		"duration" => cmd_duration(),
-		"sched" => cmd_sched(),
-		"cfgdump" => cmd_cfgdump(),
-		"firstreq" => cmd_firstreq(),
-		"ratelimit" => cmd_ratelimit(),
-		"jws" => cmd_jws(),
-		"proof" => cmd_proof(),
-		"storehist" => cmd_storehist(),
-		"acctrt" => cmd_acctrt(),
-		"acctload" => cmd_acctload(),
-		"tlsalpn" => cmd_tlsalpn(),
+		#[cfg(not(verif_no_duration))]
+		"duration" => g_duration::cmd_duration(),
+		#[cfg(not(verif_no_core))]
+		"sched" => g_core::cmd_sched(),
+		#[cfg(not(verif_no_core))]
+		"cfgdump" => g_core::cmd_cfgdump(),
+		#[cfg(not(verif_no_core))]
+		"firstreq" => g_core::cmd_firstreq(),
+		#[cfg(not(verif_no_ratelimit))]
+		"ratelimit" => g_ratelimit::cmd_ratelimit(),
+		#[cfg(not(verif_no_jws))]
+		"jws" => g_jws::cmd_jws(),
+		#[cfg(not(verif_no_proof))]
+		"proof" => g_proof::cmd_proof(),
+		#[cfg(not(verif_no_proof))]
+		"tlsalpn" => g_proof::cmd_tlsalpn(),
+		#[cfg(not(verif_no_store))]
+		"storehist" => g_store::cmd_storehist(),
+		#[cfg(not(verif_no_acct))]
+		"acctrt" => g_acct::cmd_acctrt(),
+		#[cfg(not(verif_no_acct))]
+		"acctload" => g_acct::cmd_acctload(),
 		_ => {
-			eprintln!("verif probe: unknown sub-command {cmd}");
+			eprintln!("verif probe: sub-command {cmd} is unknown or was left out of this build");
 			std::process::exit(64);
 		}
 	}
-}
-
-// ---------------------------------------------------------------- duration
-// stdin: one JSON string per line.  stdout: {"i":n,"ok":bool,"s":..,"ns":..}
-fn cmd_duration() {
-	for (i, l) in stdin_lines().iter().enumerate() {
-		let s: String = match serde_json::from_str(l) {
-			Ok(s) => s,
-			Err(_) => continue,
-		};
-		// announce before the call so that a crash can be attributed
-		out(&json!({"i": i, "begin": true}));
-		match parse_duration(&s) {
-			Ok(d) => out(&json!({"i": i, "ok": true, "s": d.as_secs(), "ns": d.subsec_nanos()})),
-			Err(e) => out(&json!({"i": i, "ok": false, "err": e.message})),
-		}
-	}
-}
-
-// ------------------------------------------------------------------- sched
-// stdin line: {"config": path, "repeat": K}
-// For every certificate of the loaded configuration: K scheduling decisions.
-fn cmd_sched() {
-	let r = rt(2);
-	for l in stdin_lines() {
-		let p: Value = serde_json::from_str(&l).unwrap();
-		let config = str_of(&p, "config");
-		let repeat = u64_of(&p, "repeat", 1);
-		r.block_on(async {
-			let srv = match MainEventLoop::new(&config, &[]).await {
-				Ok(s) => s,
-				Err(e) => {
-					out(&json!({"config": config, "load_ok": false, "err": e.message}));
-					return;
-				}
-			};
-			let (certs, _, _) = srv.verif_parts();
-			let mut ids: Vec<&String> = certs.keys().collect();
-			ids.sort();
-			for id in ids {
-				let c = &certs[id];
-				out(&json!({"config": config, "id": id, "begin": true}));
-				let mut res = vec![];
-				let t0 = now_unix();
-				for _ in 0..repeat {
-					match c.schedule_renewal().await {
-						Ok(d) => res.push(json!({"ok": true, "s": d.as_secs(), "ns": d.subsec_nanos()})),
-						Err(e) => res.push(json!({"ok": false, "err": e.message})),
-					}
-				}
-				let t1 = now_unix();
-				out(&json!({
-					"config": config, "id": id, "t0": t0, "t1": t1, "res": res,
-					"renew_delay": dur(&c.renew_delay),
-					"random_early_renew": dur(&c.random_early_renew),
-					"identifiers": c.identifiers.iter().map(|i| json!([i.id_type.to_string(), i.value])).collect::<Vec<Value>>(),
-				}));
-			}
-			out(&json!({"config": config, "load_ok": true}));
-		});
-	}
-}
-
-// ----------------------------------------------------------------- cfgdump
-fn hook_dump(h: &crate::hooks::Hook) -> Value {
-	let mut types: Vec<String> = h.hook_type.iter().map(|t| format!("{t:?}")).collect();
-	types.sort();
-	json!({
-		"name": h.name, "types": types, "cmd": h.cmd, "args": h.args,
-		"stdin": format!("{:?}", h.stdin), "stdout": h.stdout, "stderr": h.stderr,
-		"allow_failure": h.allow_failure,
-	})
-}
-
-fn fm_dump(fm: &FileManager) -> Value {
-	json!({
-		"account_name": fm.account_name,
-		"account_directory": fm.account_directory,
-		"crt_name": fm.crt_name,
-		"crt_name_format": fm.crt_name_format,
-		"crt_directory": fm.crt_directory,
-		"crt_key_type": fm.crt_key_type,
-		"cert_file_mode": fm.cert_file_mode,
-		"cert_file_owner": fm.cert_file_owner,
-		"cert_file_group": fm.cert_file_group,
-		"cert_file_ext": fm.cert_file_ext,
-		"pk_file_mode": fm.pk_file_mode,
-		"pk_file_owner": fm.pk_file_owner,
-		"pk_file_group": fm.pk_file_group,
-		"pk_file_ext": fm.pk_file_ext,
-		"hooks": fm.hooks.iter().map(hook_dump).collect::<Vec<Value>>(),
-		"env": fm.env,
-	})
-}
-
-async fn dump_loaded(srv: &MainEventLoop) -> Value {
-	let (certs, accounts, endpoints) = srv.verif_parts();
-	let mut cv = serde_json::Map::new();
-	for (id, c) in certs.iter() {
-		let cert_path = storage::get_certificate_path(&c.file_manager)
-			.await
-			.map(|p| p.display().to_string())
-			.unwrap_or_else(|e| format!("ERR:{}", e.message));
-		let pk_path = storage::get_keypair_path(&c.file_manager)
-			.await
-			.map(|p| p.display().to_string())
-			.unwrap_or_else(|e| format!("ERR:{}", e.message));
-		let mut sa: Vec<(String, String)> = c
-			.subject_attributes
-			.iter()
-			.map(|(k, v)| (format!("{k:?}"), v.to_owned()))
-			.collect();
-		sa.sort();
-		cv.insert(
-			id.to_owned(),
-			json!({
-				"account_name": c.account_name,
-				"endpoint_name": c.endpoint_name,
-				"identifiers": c.identifiers.iter().map(|i| json!({
-					"type": i.id_type.to_string(), "value": i.value,
-					"challenge": i.challenge.to_string(), "env": i.env,
-				})).collect::<Vec<Value>>(),
-				"subject_attributes": sa,
-				"key_type": c.key_type.to_string(),
-				"csr_digest": c.csr_digest.to_string(),
-				"kp_reuse": c.kp_reuse,
-				"crt_name": c.crt_name,
-				"env": c.env,
-				"renew_delay": dur(&c.renew_delay),
-				"random_early_renew": dur(&c.random_early_renew),
-				"hooks": c.hooks.iter().map(hook_dump).collect::<Vec<Value>>(),
-				"fm": fm_dump(&c.file_manager),
-				"cert_path": cert_path,
-				"pk_path": pk_path,
-			}),
-		);
-	}
-	let mut av = serde_json::Map::new();
-	for (name, a) in accounts.iter() {
-		let a = a.read().await;
-		let mut eps: Vec<String> = a.endpoints.keys().cloned().collect();
-		eps.sort();
-		av.insert(
-			name.to_owned(),
-			json!({
-				"name": a.name,
-				"endpoints": eps,
-				"contacts": a.contacts.iter().map(|c| c.to_string()).collect::<Vec<String>>(),
-				"key_type": a.current_key.key.key_type.to_string(),
-				"signature_algorithm": a.current_key.signature_algorithm.to_string(),
-				"past_keys": a.past_keys.len(),
-				"external_account": a.external_account.as_ref().map(|e| json!({
-					"identifier": e.identifier, "key": hex(&e.key),
-					"signature_algorithm": e.signature_algorithm.to_string()})),
-				"fm": fm_dump(&a.file_manager),
-			}),
-		);
-	}
-	let mut ev = serde_json::Map::new();
-	for (name, e) in endpoints.iter() {
-		let e = e.read().await;
-		ev.insert(
-			name.to_owned(),
-			json!({
-				"name": e.name, "url": e.url, "tos_agreed": e.tos_agreed,
-				"rl": format!("{:?}", e.rl),
-				"root_certificates": e.root_certificates,
-			}),
-		);
-	}
-	json!({"certificates": cv, "accounts": av, "endpoints": ev})
-}
-
-// stdin line: {"config": path, "root_certs": [..]}
-fn cmd_cfgdump() {
-	let r = rt(2);
-	for l in stdin_lines() {
-		let p: Value = serde_json::from_str(&l).unwrap();
-		let config = str_of(&p, "config");
-		let roots: Vec<String> = p
-			.get("root_certs")
-			.and_then(|v| v.as_array())
-			.map(|a| a.iter().filter_map(|e| e.as_str().map(String::from)).collect())
-			.unwrap_or_default();
-		let roots_ref: Vec<&str> = roots.iter().map(|e| e.as_str()).collect();
-		out(&json!({"config": config, "begin": true}));
-		r.block_on(async {
-			match MainEventLoop::new(&config, &roots_ref).await {
-				Ok(srv) => {
-					let d = dump_loaded(&srv).await;
-					out(&json!({"config": config, "load_ok": true, "dump": d}));
-				}
-				Err(e) => out(&json!({"config": config, "load_ok": false, "err": e.message})),
-			}
-		});
-	}
-}
-
-// ---------------------------------------------------------------- firstreq
-// stdin line: {"config": path, "timeout_ms": T}
-// Loads the configuration exactly as the daemon does and then passes every
-// endpoint's limiter once, which is what precedes the daemon's first request.
-fn cmd_firstreq() {
-	let r = rt(2);
-	for l in stdin_lines() {
-		let p: Value = serde_json::from_str(&l).unwrap();
-		let config = str_of(&p, "config");
-		let timeout = Duration::from_millis(u64_of(&p, "timeout_ms", 3000));
-		out(&json!({"config": config, "begin": true}));
-		r.block_on(async {
-			let srv = match MainEventLoop::new(&config, &[]).await {
-				Ok(s) => s,
-				Err(e) => {
-					out(&json!({"config": config, "load_ok": false, "err": e.message}));
-					return;
-				}
-			};
-			let (certs, _, endpoints) = srv.verif_parts();
-			let mut names: Vec<&String> = endpoints.keys().collect();
-			names.sort();
-			let mut eps = vec![];
-			for name in names {
-				let e = endpoints[name].clone();
-				let t0 = Instant::now();
-				let res = tokio::time::timeout(timeout, async {
-					e.write().await.rl.block_until_allowed().await;
-				})
-				.await;
-				eps.push(json!({
-					"endpoint": name, "admitted": res.is_ok(),
-					"waited_ms": t0.elapsed().as_millis() as u64,
-					"rl": format!("{:?}", e.read().await.rl),
-				}));
-			}
-			out(&json!({"config": config, "load_ok": true, "certificates": certs.len(), "endpoints": eps}));
-		});
-	}
-}
-
-// --------------------------------------------------------------- ratelimit
-// stdin line: {"limits": [[n, "period"],..], "callers": C, "requests": R,
-//              "gaps_ms": [[..per caller..]], "workers": W, "spawn": bool,
-//              "deadline_ms": D}
-// Every caller does what http::get/post do: take the endpoint write lock and
-// wait for the limiter.  Output: call/return instants (ns since start).
-fn cmd_ratelimit() {
-	for l in stdin_lines() {
-		let p: Value = serde_json::from_str(&l).unwrap();
-		let limits: Vec<(usize, String)> = p["limits"]
-			.as_array()
-			.unwrap()
-			.iter()
-			.map(|e| (e[0].as_u64().unwrap() as usize, e[1].as_str().unwrap().to_string()))
-			.collect();
-		let callers = u64_of(&p, "callers", 1) as usize;
-		let requests = u64_of(&p, "requests", 1) as usize;
-		let workers = u64_of(&p, "workers", 2) as usize;
-		let spawn = p.get("spawn").and_then(|e| e.as_bool()).unwrap_or(false);
-		let deadline = Duration::from_millis(u64_of(&p, "deadline_ms", 60_000));
-		let gaps: Vec<Vec<u64>> = p
-			.get("gaps_ms")
-			.and_then(|e| e.as_array())
-			.map(|a| {
-				a.iter()
-					.map(|c| {
-						c.as_array()
-							.map(|g| g.iter().map(|x| x.as_u64().unwrap_or(0)).collect())
-							.unwrap_or_default()
-					})
-					.collect()
-			})
-			.unwrap_or_default();
-		let ep = match Endpoint::new("probe", "http://127.0.0.1:1/", true, &limits, &[]) {
-			Ok(e) => e,
-			Err(e) => {
-				out(&json!({"ok": false, "err": e.message}));
-				continue;
-			}
-		};
-		let ep = Arc::new(RwLock::new(ep));
-		let log = Arc::new(std::sync::Mutex::new(Vec::<(usize, usize, u64, u64)>::new()));
-		let r = rt(workers);
-		let start = Instant::now();
-		let mk = |c: usize| {
-			let ep = ep.clone();
-			let log = log.clone();
-			let g = gaps.get(c).cloned().unwrap_or_default();
-			async move {
-				for i in 0..requests {
-					let gap = g.get(i).copied().unwrap_or(0);
-					if gap > 0 {
-						tokio::time::sleep(Duration::from_millis(gap)).await;
-					}
-					let t_call = start.elapsed().as_nanos() as u64;
-					ep.write().await.rl.block_until_allowed().await;
-					let t_ret = start.elapsed().as_nanos() as u64;
-					log.lock().unwrap().push((c, i, t_call, t_ret));
-				}
-			}
-		};
-		let finished = r.block_on(async {
-			let all = async {
-				if spawn {
-					let hs: Vec<_> = (0..callers).map(|c| tokio::spawn(mk(c))).collect();
-					for h in hs {
-						let _ = h.await;
-					}
-				} else {
-					futures::future::join_all((0..callers).map(mk)).await;
-				}
-			};
-			tokio::time::timeout(deadline, all).await.is_ok()
-		});
-		let total_ns = start.elapsed().as_nanos() as u64;
-		let ev: Vec<Value> = log
-			.lock()
-			.unwrap()
-			.iter()
-			.map(|(c, i, a, b)| json!([c, i, a, b]))
-			.collect();
-		out(&json!({"ok": true, "finished": finished, "total_ns": total_ns, "events": ev,
-			"expected": callers * requests}));
-		r.shutdown_background();
-	}
-}
-
-// --------------------------------------------------------------------- jws
-fn all_key_types() -> Vec<KeyType> {
-	vec![
-		KeyType::Rsa2048,
-		KeyType::Rsa4096,
-		KeyType::EcdsaP256,
-		KeyType::EcdsaP384,
-		KeyType::EcdsaP521,
-		KeyType::Ed25519,
-		KeyType::Ed448,
-	]
 }
 
 struct XorShift(u64);
@@ -466,368 +132,768 @@ impl XorShift {
 	}
 }
 
-// stdin line: {"key_type": "ecdsa-p256", "keys": K, "per_key": M, "seed": S}
-// For each key: public key PEM + M JWS of each of the three encoders.
-fn cmd_jws() {
-	for l in stdin_lines() {
-		let p: Value = serde_json::from_str(&l).unwrap();
-		let kt: KeyType = str_of(&p, "key_type").parse().unwrap();
-		let keys = u64_of(&p, "keys", 1);
-		let per_key = u64_of(&p, "per_key", 1);
-		let mut rng = XorShift(u64_of(&p, "seed", 1) | 1);
-		let alg = kt.get_default_signature_alg();
-		for _ in 0..keys {
-			let kp = gen_keypair(kt).unwrap();
-			let pem = String::from_utf8(kp.public_key_to_pem().unwrap()).unwrap();
-			for _ in 0..per_key {
-				let plen = rng.below(200) as usize;
-				let payload = rng.bytes(plen);
-				let url = format!("https://ca.example/{}", rng.token(12));
-				let nonce = rng.token_upto(40);
-				let kid = format!("https://ca.example/acct/{}", rng.below(1 << 40));
-				let mode = rng.below(3);
-				let (jws, what) = match mode {
-					0 => (encode_jwk(&kp, &alg, &payload, &url, Some(nonce.clone())), "jwk"),
-					1 => (encode_kid(&kp, &alg, &kid, &payload, &url, &nonce), "kid"),
-					_ => (encode_jwk(&kp, &alg, &payload, &url, None), "jwk-nononce"),
-				};
-				match jws {
-					Ok(j) => out(&json!({
-						"mode": what, "key_type": kt.to_string(), "alg": alg.to_string(),
-						"pub_pem": pem, "payload_hex": hex(&payload), "url": url,
-						"nonce": if mode == 2 { Value::Null } else { json!(nonce) },
-						"kid": if mode == 1 { json!(kid) } else { Value::Null },
-						"jws": j,
-					})),
-					Err(e) => out(&json!({"mode": what, "key_type": kt.to_string(), "err": e.message})),
-				}
-			}
-		}
-		// HMAC (external account binding) encoder
-		for (a, name) in [
-			(JwsSignatureAlgorithm::Hs256, "HS256"),
-			(JwsSignatureAlgorithm::Hs384, "HS384"),
-			(JwsSignatureAlgorithm::Hs512, "HS512"),
-		] {
-			for _ in 0..per_key.min(20) {
-				let klen = 1 + rng.below(96) as usize;
-				let key = rng.bytes(klen);
-				let plen = rng.below(300) as usize;
-				let payload = rng.bytes(plen);
-				let url = format!("https://ca.example/{}", rng.token(12));
-				let kid = rng.token_upto(30);
-				match encode_kid_mac(&key, &a, &kid, &payload, &url) {
-					Ok(j) => out(&json!({"mode": "mac", "alg": name, "mac_key_hex": hex(&key),
-						"payload_hex": hex(&payload), "url": url, "kid": kid, "jws": j})),
-					Err(e) => out(&json!({"mode": "mac", "alg": name, "err": e.message})),
-				}
-			}
-		}
-	}
-}
-
-// ------------------------------------------------------------------- proof
-// stdin line: {"key_type": .., "keys": K, "per_key": M, "seed": S}
-fn cmd_proof() {
-	for l in stdin_lines() {
-		let p: Value = serde_json::from_str(&l).unwrap();
-		let kt: KeyType = str_of(&p, "key_type").parse().unwrap();
-		let keys = u64_of(&p, "keys", 1);
-		let per_key = u64_of(&p, "per_key", 1);
-		let mut rng = XorShift(u64_of(&p, "seed", 1) | 1);
-		for _ in 0..keys {
-			let kp = gen_keypair(kt).unwrap();
-			let pem = String::from_utf8(kp.public_key_to_pem().unwrap()).unwrap();
-			for _ in 0..per_key {
-				let ty = ["http-01", "dns-01", "tls-alpn-01"][rng.below(3) as usize];
-				let token = rng.token_upto(128);
-				let ch = json!({"type": ty, "url": "https://ca.example/chall/1", "token": token});
-				let ch: Challenge = serde_json::from_value(ch).unwrap();
-				match ch.get_proof(&kp) {
-					Ok((proof, raw)) => out(&json!({
-						"key_type": kt.to_string(), "pub_pem": pem, "type": ty, "token": token,
-						"proof": proof, "raw_proof": raw, "file_name": ch.get_file_name(),
-					})),
-					Err(e) => out(&json!({"key_type": kt.to_string(), "type": ty, "err": e.message})),
-				}
-			}
-		}
-	}
-}
-
-// --------------------------------------------------------------- storehist
-fn mk_fm(p: &Value) -> FileManager {
-	let os = |k: &str| p.get(k).and_then(|e| e.as_str()).map(String::from);
-	FileManager {
-		account_name: str_of(p, "account_name"),
-		account_directory: str_of(p, "dir"),
-		crt_name: str_of(p, "crt_name"),
-		crt_name_format: p
-			.get("format")
-			.and_then(|e| e.as_str())
-			.unwrap_or(crate::DEFAULT_CERT_FORMAT)
-			.to_string(),
-		crt_directory: str_of(p, "dir"),
-		crt_key_type: str_of(p, "key_type_label"),
-		cert_file_mode: u64_of(p, "cert_file_mode", crate::DEFAULT_CERT_FILE_MODE as u64) as u32,
-		cert_file_owner: os("cert_file_owner"),
-		cert_file_group: os("cert_file_group"),
-		cert_file_ext: os("cert_file_ext"),
-		pk_file_mode: u64_of(p, "pk_file_mode", crate::DEFAULT_PK_FILE_MODE as u64) as u32,
-		pk_file_owner: os("pk_file_owner"),
-		pk_file_group: os("pk_file_group"),
-		pk_file_ext: os("pk_file_ext"),
-		hooks: vec![],
-		env: HashMap::new(),
-	}
-}
-
-fn stat_json(path: &std::path::Path) -> Value {
-	match std::fs::metadata(path) {
-		Ok(m) => json!({"exists": true, "mode": m.mode() & 0o7777, "uid": m.uid(), "gid": m.gid(), "len": m.len()}),
-		Err(_) => json!({"exists": false}),
-	}
-}
-
-// stdin line: {"dir":..,"crt_name":..,"account_name":..,"umask": octal int,
-//   "ops":[{"kind":"cert"|"key"|"account","len":N,"seed":S}|{"kind":"key","key_type":..}], ...fm fields}
-// After every write the file is read back; bytes written and bytes found are
-// both reported (hex of sha-less full content is too big: lengths + equality +
-// first differing offset).
-fn cmd_storehist() {
-	let r = rt(2);
-	for l in stdin_lines() {
-		let p: Value = serde_json::from_str(&l).unwrap();
-		if let Some(m) = p.get("umask").and_then(|e| e.as_u64()) {
-			nix::sys::stat::umask(nix::sys::stat::Mode::from_bits_truncate(m as u32));
-		}
-		let fm = mk_fm(&p);
-		let mut results = vec![];
-		r.block_on(async {
-			for op in p["ops"].as_array().unwrap() {
-				let kind = str_of(op, "kind");
-				let mut rng = XorShift(u64_of(op, "seed", 7) | 1);
-				let (path, data, res) = match kind.as_str() {
-					"cert" => {
-						let data = rng.bytes(u64_of(op, "len", 0) as usize);
-						let path = storage::get_certificate_path(&fm).await.unwrap();
-						let pre = stat_json(&path);
-						let res = storage::write_certificate(&fm, &data).await;
-						results.push(json!({"pre": pre}));
-						(path, data, res)
-					}
-					"account" => {
-						let data = rng.bytes(u64_of(op, "len", 0) as usize);
-						let path = std::path::PathBuf::from(str_of(&p, "account_path"));
-						let pre = stat_json(&path);
-						let res = storage::set_account_data(&fm, &data).await;
-						results.push(json!({"pre": pre}));
-						(path, data, res)
-					}
-					_ => {
-						let kt: KeyType = str_of(op, "key_type").parse().unwrap();
-						let kp = gen_keypair(kt).unwrap();
-						let data = kp.private_key_to_pem().unwrap();
-						let path = storage::get_keypair_path(&fm).await.unwrap();
-						let pre = stat_json(&path);
-						let res = storage::set_keypair(&fm, &kp).await;
-						results.push(json!({"pre": pre}));
-						(path, data, res)
-					}
-				};
-				let found = std::fs::read(&path).unwrap_or_default();
-				let first_diff = found
-					.iter()
-					.zip(data.iter())
-					.position(|(a, b)| a != b)
-					.unwrap_or(found.len().min(data.len()));
-				let last = results.pop().unwrap();
-				results.push(json!({
-					"kind": kind, "path": path.display().to_string(),
-					"write_ok": res.is_ok(), "err": res.err().map(|e| e.message),
-					"written_len": data.len(), "found_len": found.len(),
-					"equal": found == data, "first_diff": first_diff,
-					"pre": last["pre"], "post": stat_json(&path),
-				}));
-			}
-		});
-		out(&json!({"id": p.get("id"), "results": results}));
-	}
-}
-
-// ------------------------------------------------------------------ acctrt
-fn account_dump(a: &Account) -> Value {
-	let key = |k: &crate::account::AccountKey| {
-		json!({
-			"creation_date": k.creation_date.duration_since(UNIX_EPOCH).map(|d| json!([d.as_secs(), d.subsec_nanos()])).unwrap_or(Value::Null),
-			"key_type": k.key.key_type.to_string(),
-			"der": k.key.private_key_to_der().map(|d| hex(&d)).unwrap_or_default(),
-			"pub_pem": k.key.public_key_to_pem().map(|d| String::from_utf8_lossy(&d).to_string()).unwrap_or_default(),
-			"signature_algorithm": k.signature_algorithm.to_string(),
-		})
-	};
-	let mut eps = serde_json::Map::new();
-	for (n, e) in a.endpoints.iter() {
-		eps.insert(
-			n.to_owned(),
-			json!({
-				"creation_date": e.creation_date.duration_since(UNIX_EPOCH).map(|d| json!([d.as_secs(), d.subsec_nanos()])).unwrap_or(Value::Null),
-				"account_url": e.account_url, "orders_url": e.orders_url,
-				"key_hash": hex(&e.key_hash), "contacts_hash": hex(&e.contacts_hash),
-				"external_account_hash": hex(&e.external_account_hash),
-			}),
-		);
-	}
-	json!({
-		"name": a.name,
-		"endpoints": eps,
-		"contacts": a.contacts.iter().map(|c| c.to_string()).collect::<Vec<String>>(),
-		"current_key": key(&a.current_key),
-		"past_keys": a.past_keys.iter().map(key).collect::<Vec<Value>>(),
-		"external_account": a.external_account.as_ref().map(|e| json!({
-			"identifier": e.identifier, "key": hex(&e.key),
-			"signature_algorithm": e.signature_algorithm.to_string()})),
-	})
-}
-
-fn ext_account(p: &Value) -> Option<ExternalAccount> {
-	p.get("eab").filter(|e| e.is_object()).map(|e| ExternalAccount {
-		identifier: str_of(e, "identifier"),
-		key: unhex(&str_of(e, "key_hex")),
-		signature_algorithm: str_of(e, "alg").parse().unwrap_or(JwsSignatureAlgorithm::Hs256),
-	})
-}
-
-async fn load_account(p: &Value, key_type: &str) -> Result<Account, acme_common::error::Error> {
-	let fm = mk_fm(p);
-	let contacts: Vec<(String, String)> = p
-		.get("contacts")
-		.and_then(|e| e.as_array())
-		.map(|a| a.iter().map(|c| ("mailto".to_string(), c.as_str().unwrap_or("").to_string())).collect())
-		.unwrap_or_default();
-	let sig = p.get("signature_algorithm").and_then(|e| e.as_str()).map(String::from);
-	Account::load(
-		&fm,
-		&str_of(p, "account_name"),
-		&contacts,
-		&Some(key_type.to_string()),
-		&sig,
-		&ext_account(p),
-	)
-	.await
-}
-
-// stdin line: {"dir":..,"account_name":..,"contacts":[..],"key_types":[k0,k1,..],
-//   "endpoints":[{"name":..,"url":..,"orders":..}], "eab":{..}|null}
-// Builds the account through the real load path (key_types[0] creates it, each
-// further key type is a configuration change handled by load → update_keys),
-// records endpoint data through the real setters, saves, and loads again.
-fn cmd_acctrt() {
-	let r = rt(2);
-	for l in stdin_lines() {
-		let p: Value = serde_json::from_str(&l).unwrap();
-		out(&json!({"id": p.get("id"), "begin": true}));
-		let kts: Vec<String> = p["key_types"].as_array().unwrap().iter().map(|e| e.as_str().unwrap().to_string()).collect();
-		r.block_on(async {
-			let mut acc = match load_account(&p, &kts[0]).await {
-				Ok(a) => a,
-				Err(e) => {
-					out(&json!({"id": p.get("id"), "ok": false, "stage": "create", "err": e.message}));
-					return;
-				}
+#[cfg(not(verif_no_duration))]
+mod g_duration {
+	use super::*;
+	use crate::duration::parse_duration;
+	// ---------------------------------------------------------------- duration
+	// stdin: one JSON string per line.  stdout: {"i":n,"ok":bool,"s":..,"ns":..}
+	pub fn cmd_duration() {
+		for (i, l) in stdin_lines().iter().enumerate() {
+			let s: String = match serde_json::from_str(l) {
+				Ok(s) => s,
+				Err(_) => continue,
 			};
-			let eps = p.get("endpoints").and_then(|e| e.as_array()).cloned().unwrap_or_default();
-			let setup = |acc: &mut Account| -> Result<(), acme_common::error::Error> {
-				for e in eps.iter() {
-					let n = str_of(e, "name");
-					acc.add_endpoint_name(&n);
-					acc.set_account_url(&n, &str_of(e, "url"))?;
-					acc.set_orders_url(&n, &str_of(e, "orders"))?;
-					acc.update_key_hash(&n)?;
-					acc.update_contacts_hash(&n)?;
-					acc.update_external_account_hash(&n)?;
-				}
-				Ok(())
-			};
-			if let Err(e) = setup(&mut acc) {
-				out(&json!({"id": p.get("id"), "ok": false, "stage": "setup", "err": e.message}));
-				return;
+			// announce before the call so that a crash can be attributed
+			out(&json!({"i": i, "begin": true}));
+			match parse_duration(&s) {
+				Ok(d) => out(&json!({"i": i, "ok": true, "s": d.as_secs(), "ns": d.subsec_nanos()})),
+				Err(e) => out(&json!({"i": i, "ok": false, "err": e.message})),
 			}
-			if let Err(e) = acc.save().await {
-				out(&json!({"id": p.get("id"), "ok": false, "stage": "save", "err": e.message}));
-				return;
-			}
-			let mut before = account_dump(&acc);
-			let mut steps = vec![];
-			for kt in kts.iter().skip(1) {
-				// restart with a changed key type
-				match load_account(&p, kt).await {
-					Ok(a) => {
-						steps.push(json!({"key_type": kt, "before": before, "after": account_dump(&a)}));
-						before = account_dump(&a);
-					}
+		}
+	}
+
+}
+
+#[cfg(not(verif_no_core))]
+mod g_core {
+	use super::*;
+	use crate::main_event_loop::MainEventLoop;
+	use crate::storage::{self, FileManager};
+	use std::time::Instant;
+	// ------------------------------------------------------------------- sched
+	// stdin line: {"config": path, "repeat": K}
+	// For every certificate of the loaded configuration: K scheduling decisions.
+	pub fn cmd_sched() {
+		let r = rt(2);
+		for l in stdin_lines() {
+			let p: Value = serde_json::from_str(&l).unwrap();
+			let config = str_of(&p, "config");
+			let repeat = u64_of(&p, "repeat", 1);
+			r.block_on(async {
+				let srv = match MainEventLoop::new(&config, &[]).await {
+					Ok(s) => s,
 					Err(e) => {
-						out(&json!({"id": p.get("id"), "ok": false, "stage": "reload-keychange", "err": e.message}));
+						out(&json!({"config": config, "load_ok": false, "err": e.message}));
 						return;
 					}
-				}
-			}
-			let last_kt = kts.last().unwrap();
-			match load_account(&p, last_kt).await {
-				Ok(a) => out(&json!({"id": p.get("id"), "ok": true, "steps": steps,
-					"saved": before, "loaded": account_dump(&a)})),
-				Err(e) => out(&json!({"id": p.get("id"), "ok": false, "stage": "reload", "err": e.message})),
-			}
-		});
-	}
-}
-
-// stdin line: same account parameters; only tries to load (used for truncated files)
-fn cmd_acctload() {
-	let r = rt(2);
-	for l in stdin_lines() {
-		let p: Value = serde_json::from_str(&l).unwrap();
-		out(&json!({"id": p.get("id"), "begin": true}));
-		let kt = str_of(&p, "key_type");
-		r.block_on(async {
-			match load_account(&p, &kt).await {
-				Ok(mut a) => {
-					// optional: save the loaded account again into another (empty) directory
-					let mut resaved = Value::Null;
-					if let Some(dst) = p.get("resave_dir").and_then(|e| e.as_str()) {
-						a.file_manager.account_directory = dst.to_string();
-						let r = a.save().await;
-						resaved = json!({"ok": r.is_ok(), "err": r.err().map(|e| e.message)});
+				};
+				let (certs, _, _) = srv.verif_parts();
+				let mut ids: Vec<&String> = certs.keys().collect();
+				ids.sort();
+				for id in ids {
+					let c = &certs[id];
+					out(&json!({"config": config, "id": id, "begin": true}));
+					let mut res = vec![];
+					let t0 = now_unix();
+					for _ in 0..repeat {
+						match c.schedule_renewal().await {
+							Ok(d) => res.push(json!({"ok": true, "s": d.as_secs(), "ns": d.subsec_nanos()})),
+							Err(e) => res.push(json!({"ok": false, "err": e.message})),
+						}
 					}
-					out(&json!({"id": p.get("id"), "ok": true, "loaded": account_dump(&a), "resaved": resaved}))
+					let t1 = now_unix();
+					out(&json!({
+						"config": config, "id": id, "t0": t0, "t1": t1, "res": res,
+						"renew_delay": dur(&c.renew_delay),
+						"random_early_renew": dur(&c.random_early_renew),
+						"identifiers": c.identifiers.iter().map(|i| json!([i.id_type.to_string(), i.value])).collect::<Vec<Value>>(),
+					}));
 				}
-				Err(e) => out(&json!({"id": p.get("id"), "ok": false, "err": e.message})),
-			}
-		});
+				out(&json!({"config": config, "load_ok": true}));
+			});
+		}
 	}
+
+	// ----------------------------------------------------------------- cfgdump
+	fn hook_dump(h: &crate::hooks::Hook) -> Value {
+		let mut types: Vec<String> = h.hook_type.iter().map(|t| format!("{t:?}")).collect();
+		types.sort();
+		json!({
+			"name": h.name, "types": types, "cmd": h.cmd, "args": h.args,
+			"stdin": format!("{:?}", h.stdin), "stdout": h.stdout, "stderr": h.stderr,
+			"allow_failure": h.allow_failure,
+		})
+	}
+
+	fn fm_dump(fm: &FileManager) -> Value {
+		json!({
+			"account_name": fm.account_name,
+			"account_directory": fm.account_directory,
+			"crt_name": fm.crt_name,
+			"crt_name_format": fm.crt_name_format,
+			"crt_directory": fm.crt_directory,
+			"crt_key_type": fm.crt_key_type,
+			"cert_file_mode": fm.cert_file_mode,
+			"cert_file_owner": fm.cert_file_owner,
+			"cert_file_group": fm.cert_file_group,
+			"cert_file_ext": fm.cert_file_ext,
+			"pk_file_mode": fm.pk_file_mode,
+			"pk_file_owner": fm.pk_file_owner,
+			"pk_file_group": fm.pk_file_group,
+			"pk_file_ext": fm.pk_file_ext,
+			"hooks": fm.hooks.iter().map(hook_dump).collect::<Vec<Value>>(),
+			"env": fm.env,
+		})
+	}
+
+	async fn dump_loaded(srv: &MainEventLoop) -> Value {
+		let (certs, accounts, endpoints) = srv.verif_parts();
+		let mut cv = serde_json::Map::new();
+		for (id, c) in certs.iter() {
+			let cert_path = storage::get_certificate_path(&c.file_manager)
+				.await
+				.map(|p| p.display().to_string())
+				.unwrap_or_else(|e| format!("ERR:{}", e.message));
+			let pk_path = storage::get_keypair_path(&c.file_manager)
+				.await
+				.map(|p| p.display().to_string())
+				.unwrap_or_else(|e| format!("ERR:{}", e.message));
+			let mut sa: Vec<(String, String)> = c
+				.subject_attributes
+				.iter()
+				.map(|(k, v)| (format!("{k:?}"), v.to_owned()))
+				.collect();
+			sa.sort();
+			cv.insert(
+				id.to_owned(),
+				json!({
+					"account_name": c.account_name,
+					"endpoint_name": c.endpoint_name,
+					"identifiers": c.identifiers.iter().map(|i| json!({
+						"type": i.id_type.to_string(), "value": i.value,
+						"challenge": i.challenge.to_string(), "env": i.env,
+					})).collect::<Vec<Value>>(),
+					"subject_attributes": sa,
+					"key_type": c.key_type.to_string(),
+					"csr_digest": c.csr_digest.to_string(),
+					"kp_reuse": c.kp_reuse,
+					"crt_name": c.crt_name,
+					"env": c.env,
+					"renew_delay": dur(&c.renew_delay),
+					"random_early_renew": dur(&c.random_early_renew),
+					"hooks": c.hooks.iter().map(hook_dump).collect::<Vec<Value>>(),
+					"fm": fm_dump(&c.file_manager),
+					"cert_path": cert_path,
+					"pk_path": pk_path,
+				}),
+			);
+		}
+		let mut av = serde_json::Map::new();
+		for (name, a) in accounts.iter() {
+			let a = a.read().await;
+			let mut eps: Vec<String> = a.endpoints.keys().cloned().collect();
+			eps.sort();
+			av.insert(
+				name.to_owned(),
+				json!({
+					"name": a.name,
+					"endpoints": eps,
+					"contacts": a.contacts.iter().map(|c| c.to_string()).collect::<Vec<String>>(),
+					"key_type": a.current_key.key.key_type.to_string(),
+					"signature_algorithm": a.current_key.signature_algorithm.to_string(),
+					"past_keys": a.past_keys.len(),
+					"external_account": a.external_account.as_ref().map(|e| json!({
+						"identifier": e.identifier, "key": hex(&e.key),
+						"signature_algorithm": e.signature_algorithm.to_string()})),
+					"fm": fm_dump(&a.file_manager),
+				}),
+			);
+		}
+		let mut ev = serde_json::Map::new();
+		for (name, e) in endpoints.iter() {
+			let e = e.read().await;
+			ev.insert(
+				name.to_owned(),
+				json!({
+					"name": e.name, "url": e.url, "tos_agreed": e.tos_agreed,
+					"rl": format!("{:?}", e.rl),
+					"root_certificates": e.root_certificates,
+				}),
+			);
+		}
+		json!({"certificates": cv, "accounts": av, "endpoints": ev})
+	}
+
+	// stdin line: {"config": path, "root_certs": [..]}
+	pub fn cmd_cfgdump() {
+		let r = rt(2);
+		for l in stdin_lines() {
+			let p: Value = serde_json::from_str(&l).unwrap();
+			let config = str_of(&p, "config");
+			let roots: Vec<String> = p
+				.get("root_certs")
+				.and_then(|v| v.as_array())
+				.map(|a| a.iter().filter_map(|e| e.as_str().map(String::from)).collect())
+				.unwrap_or_default();
+			let roots_ref: Vec<&str> = roots.iter().map(|e| e.as_str()).collect();
+			out(&json!({"config": config, "begin": true}));
+			r.block_on(async {
+				match MainEventLoop::new(&config, &roots_ref).await {
+					Ok(srv) => {
+						let d = dump_loaded(&srv).await;
+						out(&json!({"config": config, "load_ok": true, "dump": d}));
+					}
+					Err(e) => out(&json!({"config": config, "load_ok": false, "err": e.message})),
+				}
+			});
+		}
+	}
+
+	// ---------------------------------------------------------------- firstreq
+	// stdin line: {"config": path, "timeout_ms": T}
+	// Loads the configuration exactly as the daemon does and then passes every
+	// endpoint's limiter once, which is what precedes the daemon's first request.
+	pub fn cmd_firstreq() {
+		let r = rt(2);
+		for l in stdin_lines() {
+			let p: Value = serde_json::from_str(&l).unwrap();
+			let config = str_of(&p, "config");
+			let timeout = Duration::from_millis(u64_of(&p, "timeout_ms", 3000));
+			out(&json!({"config": config, "begin": true}));
+			r.block_on(async {
+				let srv = match MainEventLoop::new(&config, &[]).await {
+					Ok(s) => s,
+					Err(e) => {
+						out(&json!({"config": config, "load_ok": false, "err": e.message}));
+						return;
+					}
+				};
+				let (certs, _, endpoints) = srv.verif_parts();
+				let mut names: Vec<&String> = endpoints.keys().collect();
+				names.sort();
+				let mut eps = vec![];
+				for name in names {
+					let e = endpoints[name].clone();
+					let t0 = Instant::now();
+					let res = tokio::time::timeout(timeout, async {
+						e.write().await.rl.block_until_allowed().await;
+					})
+					.await;
+					eps.push(json!({
+						"endpoint": name, "admitted": res.is_ok(),
+						"waited_ms": t0.elapsed().as_millis() as u64,
+						"rl": format!("{:?}", e.read().await.rl),
+					}));
+				}
+				out(&json!({"config": config, "load_ok": true, "certificates": certs.len(), "endpoints": eps}));
+			});
+		}
+	}
+
 }
 
-// ----------------------------------------------------------------- tlsalpn
-// stdin line: {"digest_hex": 64 hex chars}  → the daemon's own proof text for
-// that digest cannot be produced without a key; instead the probe renders the
-// proof for random keys/tokens and reports the digest it contains, so that the
-// tacd checks (C16) use extension texts produced by the daemon's own code.
-fn cmd_tlsalpn() {
-	for l in stdin_lines() {
-		let p: Value = serde_json::from_str(&l).unwrap();
-		let n = u64_of(&p, "count", 1);
-		let mut rng = XorShift(u64_of(&p, "seed", 1) | 1);
-		let kp: KeyPair = gen_keypair(KeyType::EcdsaP256).unwrap();
-		for _ in 0..n {
-			let token = rng.token_upto(64);
-			let ch = json!({"type": "tls-alpn-01", "url": "https://ca.example/chall/1", "token": token});
-			let ch: Challenge = serde_json::from_value(ch).unwrap();
-			if let Ok((proof, raw)) = ch.get_proof(&kp) {
-				out(&json!({"proof": proof, "raw_proof": raw}));
+#[cfg(not(verif_no_ratelimit))]
+mod g_ratelimit {
+	use super::*;
+	use crate::endpoint::Endpoint;
+	use async_lock::RwLock;
+	use std::sync::Arc;
+	use std::time::Instant;
+	// --------------------------------------------------------------- ratelimit
+	// stdin line: {"limits": [[n, "period"],..], "callers": C, "requests": R,
+	//              "gaps_ms": [[..per caller..]], "workers": W, "spawn": bool,
+	//              "deadline_ms": D}
+	// Every caller does what http::get/post do: take the endpoint write lock and
+	// wait for the limiter.  Output: call/return instants (ns since start).
+	pub fn cmd_ratelimit() {
+		for l in stdin_lines() {
+			let p: Value = serde_json::from_str(&l).unwrap();
+			let limits: Vec<(usize, String)> = p["limits"]
+				.as_array()
+				.unwrap()
+				.iter()
+				.map(|e| (e[0].as_u64().unwrap() as usize, e[1].as_str().unwrap().to_string()))
+				.collect();
+			let callers = u64_of(&p, "callers", 1) as usize;
+			let requests = u64_of(&p, "requests", 1) as usize;
+			let workers = u64_of(&p, "workers", 2) as usize;
+			let spawn = p.get("spawn").and_then(|e| e.as_bool()).unwrap_or(false);
+			let deadline = Duration::from_millis(u64_of(&p, "deadline_ms", 60_000));
+			let gaps: Vec<Vec<u64>> = p
+				.get("gaps_ms")
+				.and_then(|e| e.as_array())
+				.map(|a| {
+					a.iter()
+						.map(|c| {
+							c.as_array()
+								.map(|g| g.iter().map(|x| x.as_u64().unwrap_or(0)).collect())
+								.unwrap_or_default()
+						})
+						.collect()
+				})
+				.unwrap_or_default();
+			let ep = match Endpoint::new("probe", "http://127.0.0.1:1/", true, &limits, &[]) {
+				Ok(e) => e,
+				Err(e) => {
+					out(&json!({"ok": false, "err": e.message}));
+					continue;
+				}
+			};
+			let ep = Arc::new(RwLock::new(ep));
+			let log = Arc::new(std::sync::Mutex::new(Vec::<(usize, usize, u64, u64)>::new()));
+			let r = rt(workers);
+			let start = Instant::now();
+			let mk = |c: usize| {
+				let ep = ep.clone();
+				let log = log.clone();
+				let g = gaps.get(c).cloned().unwrap_or_default();
+				async move {
+					for i in 0..requests {
+						let gap = g.get(i).copied().unwrap_or(0);
+						if gap > 0 {
+							tokio::time::sleep(Duration::from_millis(gap)).await;
+						}
+						let t_call = start.elapsed().as_nanos() as u64;
+						ep.write().await.rl.block_until_allowed().await;
+						let t_ret = start.elapsed().as_nanos() as u64;
+						log.lock().unwrap().push((c, i, t_call, t_ret));
+					}
+				}
+			};
+			let finished = r.block_on(async {
+				let all = async {
+					if spawn {
+						let hs: Vec<_> = (0..callers).map(|c| tokio::spawn(mk(c))).collect();
+						for h in hs {
+							let _ = h.await;
+						}
+					} else {
+						futures::future::join_all((0..callers).map(mk)).await;
+					}
+				};
+				tokio::time::timeout(deadline, all).await.is_ok()
+			});
+			let total_ns = start.elapsed().as_nanos() as u64;
+			let ev: Vec<Value> = log
+				.lock()
+				.unwrap()
+				.iter()
+				.map(|(c, i, a, b)| json!([c, i, a, b]))
+				.collect();
+			out(&json!({"ok": true, "finished": finished, "total_ns": total_ns, "events": ev,
+				"expected": callers * requests}));
+			r.shutdown_background();
+		}
+	}
+
+}
+
+#[cfg(not(verif_no_jws))]
+mod g_jws {
+	use super::*;
+	use crate::jws::{encode_jwk, encode_kid, encode_kid_mac};
+	use acme_common::crypto::{gen_keypair, JwsSignatureAlgorithm, KeyType};
+	// stdin line: {"key_type": "ecdsa-p256", "keys": K, "per_key": M, "seed": S}
+	// For each key: public key PEM + M JWS of each of the three encoders.
+	pub fn cmd_jws() {
+		for l in stdin_lines() {
+			let p: Value = serde_json::from_str(&l).unwrap();
+			let kt: KeyType = str_of(&p, "key_type").parse().unwrap();
+			let keys = u64_of(&p, "keys", 1);
+			let per_key = u64_of(&p, "per_key", 1);
+			let mut rng = XorShift(u64_of(&p, "seed", 1) | 1);
+			let alg = kt.get_default_signature_alg();
+			for _ in 0..keys {
+				let kp = gen_keypair(kt).unwrap();
+				let pem = String::from_utf8(kp.public_key_to_pem().unwrap()).unwrap();
+				for _ in 0..per_key {
+					let plen = rng.below(200) as usize;
+					let payload = rng.bytes(plen);
+					let url = format!("https://ca.example/{}", rng.token(12));
+					let nonce = rng.token_upto(40);
+					let kid = format!("https://ca.example/acct/{}", rng.below(1 << 40));
+					let mode = rng.below(3);
+					let (jws, what) = match mode {
+						0 => (encode_jwk(&kp, &alg, &payload, &url, Some(nonce.clone())), "jwk"),
+						1 => (encode_kid(&kp, &alg, &kid, &payload, &url, &nonce), "kid"),
+						_ => (encode_jwk(&kp, &alg, &payload, &url, None), "jwk-nononce"),
+					};
+					match jws {
+						Ok(j) => out(&json!({
+							"mode": what, "key_type": kt.to_string(), "alg": alg.to_string(),
+							"pub_pem": pem, "payload_hex": hex(&payload), "url": url,
+							"nonce": if mode == 2 { Value::Null } else { json!(nonce) },
+							"kid": if mode == 1 { json!(kid) } else { Value::Null },
+							"jws": j,
+						})),
+						Err(e) => out(&json!({"mode": what, "key_type": kt.to_string(), "err": e.message})),
+					}
+				}
+			}
+			// HMAC (external account binding) encoder
+			for (a, name) in [
+				(JwsSignatureAlgorithm::Hs256, "HS256"),
+				(JwsSignatureAlgorithm::Hs384, "HS384"),
+				(JwsSignatureAlgorithm::Hs512, "HS512"),
+			] {
+				for _ in 0..per_key.min(20) {
+					let klen = 1 + rng.below(96) as usize;
+					let key = rng.bytes(klen);
+					let plen = rng.below(300) as usize;
+					let payload = rng.bytes(plen);
+					let url = format!("https://ca.example/{}", rng.token(12));
+					let kid = rng.token_upto(30);
+					match encode_kid_mac(&key, &a, &kid, &payload, &url) {
+						Ok(j) => out(&json!({"mode": "mac", "alg": name, "mac_key_hex": hex(&key),
+							"payload_hex": hex(&payload), "url": url, "kid": kid, "jws": j})),
+						Err(e) => out(&json!({"mode": "mac", "alg": name, "err": e.message})),
+					}
+				}
 			}
 		}
 	}
+
 }
 
-#[allow(unused)]
-fn _unused(_: &Certificate) {}
+#[cfg(not(verif_no_proof))]
+mod g_proof {
+	use super::*;
+	use crate::acme_proto::structs::Challenge;
+	use acme_common::crypto::{gen_keypair, KeyPair, KeyType};
+	// ------------------------------------------------------------------- proof
+	// stdin line: {"key_type": .., "keys": K, "per_key": M, "seed": S}
+	pub fn cmd_proof() {
+		for l in stdin_lines() {
+			let p: Value = serde_json::from_str(&l).unwrap();
+			let kt: KeyType = str_of(&p, "key_type").parse().unwrap();
+			let keys = u64_of(&p, "keys", 1);
+			let per_key = u64_of(&p, "per_key", 1);
+			let mut rng = XorShift(u64_of(&p, "seed", 1) | 1);
+			for _ in 0..keys {
+				let kp = gen_keypair(kt).unwrap();
+				let pem = String::from_utf8(kp.public_key_to_pem().unwrap()).unwrap();
+				for _ in 0..per_key {
+					let ty = ["http-01", "dns-01", "tls-alpn-01"][rng.below(3) as usize];
+					let token = rng.token_upto(128);
+					let ch = json!({"type": ty, "url": "https://ca.example/chall/1", "token": token});
+					let ch: Challenge = serde_json::from_value(ch).unwrap();
+					match ch.get_proof(&kp) {
+						Ok((proof, raw)) => out(&json!({
+							"key_type": kt.to_string(), "pub_pem": pem, "type": ty, "token": token,
+							"proof": proof, "raw_proof": raw, "file_name": ch.get_file_name(),
+						})),
+						Err(e) => out(&json!({"key_type": kt.to_string(), "type": ty, "err": e.message})),
+					}
+				}
+			}
+		}
+	}
+	// ----------------------------------------------------------------- tlsalpn
+	// stdin line: {"digest_hex": 64 hex chars}  → the daemon's own proof text for
+	// that digest cannot be produced without a key; instead the probe renders the
+	// proof for random keys/tokens and reports the digest it contains, so that the
+	// tacd checks (C16) use extension texts produced by the daemon's own code.
+	pub fn cmd_tlsalpn() {
+		for l in stdin_lines() {
+			let p: Value = serde_json::from_str(&l).unwrap();
+			let n = u64_of(&p, "count", 1);
+			let mut rng = XorShift(u64_of(&p, "seed", 1) | 1);
+			let kp: KeyPair = gen_keypair(KeyType::EcdsaP256).unwrap();
+			for _ in 0..n {
+				let token = rng.token_upto(64);
+				let ch = json!({"type": "tls-alpn-01", "url": "https://ca.example/chall/1", "token": token});
+				let ch: Challenge = serde_json::from_value(ch).unwrap();
+				if let Ok((proof, raw)) = ch.get_proof(&kp) {
+					out(&json!({"proof": proof, "raw_proof": raw}));
+				}
+			}
+		}
+	}
+
+}
+
+#[cfg(not(verif_no_store))]
+mod g_store {
+	use super::*;
+	use crate::storage::{self, FileManager};
+	use acme_common::crypto::{gen_keypair, KeyType};
+	use std::collections::HashMap;
+	use std::os::unix::fs::MetadataExt;
+	// --------------------------------------------------------------- storehist
+	fn mk_fm(p: &Value) -> FileManager {
+		let os = |k: &str| p.get(k).and_then(|e| e.as_str()).map(String::from);
+		FileManager {
+			account_name: str_of(p, "account_name"),
+			account_directory: str_of(p, "dir"),
+			crt_name: str_of(p, "crt_name"),
+			crt_name_format: p
+				.get("format")
+				.and_then(|e| e.as_str())
+				.unwrap_or(crate::DEFAULT_CERT_FORMAT)
+				.to_string(),
+			crt_directory: str_of(p, "dir"),
+			crt_key_type: str_of(p, "key_type_label"),
+			cert_file_mode: u64_of(p, "cert_file_mode", crate::DEFAULT_CERT_FILE_MODE as u64) as u32,
+			cert_file_owner: os("cert_file_owner"),
+			cert_file_group: os("cert_file_group"),
+			cert_file_ext: os("cert_file_ext"),
+			pk_file_mode: u64_of(p, "pk_file_mode", crate::DEFAULT_PK_FILE_MODE as u64) as u32,
+			pk_file_owner: os("pk_file_owner"),
+			pk_file_group: os("pk_file_group"),
+			pk_file_ext: os("pk_file_ext"),
+			hooks: vec![],
+			env: HashMap::new(),
+		}
+	}
+
+	fn stat_json(path: &std::path::Path) -> Value {
+		match std::fs::metadata(path) {
+			Ok(m) => json!({"exists": true, "mode": m.mode() & 0o7777, "uid": m.uid(), "gid": m.gid(), "len": m.len()}),
+			Err(_) => json!({"exists": false}),
+		}
+	}
+
+	// stdin line: {"dir":..,"crt_name":..,"account_name":..,"umask": octal int,
+	//   "ops":[{"kind":"cert"|"key"|"account","len":N,"seed":S}|{"kind":"key","key_type":..}], ...fm fields}
+	// After every write the file is read back; bytes written and bytes found are
+	// both reported (hex of sha-less full content is too big: lengths + equality +
+	// first differing offset).
+	pub fn cmd_storehist() {
+		let r = rt(2);
+		for l in stdin_lines() {
+			let p: Value = serde_json::from_str(&l).unwrap();
+			if let Some(m) = p.get("umask").and_then(|e| e.as_u64()) {
+				nix::sys::stat::umask(nix::sys::stat::Mode::from_bits_truncate(m as u32));
+			}
+			let fm = mk_fm(&p);
+			let mut results = vec![];
+			r.block_on(async {
+				for op in p["ops"].as_array().unwrap() {
+					let kind = str_of(op, "kind");
+					let mut rng = XorShift(u64_of(op, "seed", 7) | 1);
+					let (path, data, res) = match kind.as_str() {
+						"cert" => {
+							let data = rng.bytes(u64_of(op, "len", 0) as usize);
+							let path = storage::get_certificate_path(&fm).await.unwrap();
+							let pre = stat_json(&path);
+							let res = storage::write_certificate(&fm, &data).await;
+							results.push(json!({"pre": pre}));
+							(path, data, res)
+						}
+						"account" => {
+							let data = rng.bytes(u64_of(op, "len", 0) as usize);
+							let path = std::path::PathBuf::from(str_of(&p, "account_path"));
+							let pre = stat_json(&path);
+							let res = storage::set_account_data(&fm, &data).await;
+							results.push(json!({"pre": pre}));
+							(path, data, res)
+						}
+						_ => {
+							let kt: KeyType = str_of(op, "key_type").parse().unwrap();
+							let kp = gen_keypair(kt).unwrap();
+							let data = kp.private_key_to_pem().unwrap();
+							let path = storage::get_keypair_path(&fm).await.unwrap();
+							let pre = stat_json(&path);
+							let res = storage::set_keypair(&fm, &kp).await;
+							results.push(json!({"pre": pre}));
+							(path, data, res)
+						}
+					};
+					let found = std::fs::read(&path).unwrap_or_default();
+					let first_diff = found
+						.iter()
+						.zip(data.iter())
+						.position(|(a, b)| a != b)
+						.unwrap_or(found.len().min(data.len()));
+					let last = results.pop().unwrap();
+					results.push(json!({
+						"kind": kind, "path": path.display().to_string(),
+						"write_ok": res.is_ok(), "err": res.err().map(|e| e.message),
+						"written_len": data.len(), "found_len": found.len(),
+						"equal": found == data, "first_diff": first_diff,
+						"pre": last["pre"], "post": stat_json(&path),
+					}));
+				}
+			});
+			out(&json!({"id": p.get("id"), "results": results}));
+		}
+	}
+
+}
+
+#[cfg(not(verif_no_acct))]
+mod g_acct {
+	use super::*;
+	use crate::account::{Account, ExternalAccount};
+	use crate::storage::FileManager;
+	use acme_common::crypto::JwsSignatureAlgorithm;
+	use std::collections::HashMap;
+	fn mk_fm(p: &Value) -> FileManager {
+		let os = |k: &str| p.get(k).and_then(|e| e.as_str()).map(String::from);
+		FileManager {
+			account_name: str_of(p, "account_name"),
+			account_directory: str_of(p, "dir"),
+			crt_name: str_of(p, "crt_name"),
+			crt_name_format: p
+				.get("format")
+				.and_then(|e| e.as_str())
+				.unwrap_or(crate::DEFAULT_CERT_FORMAT)
+				.to_string(),
+			crt_directory: str_of(p, "dir"),
+			crt_key_type: str_of(p, "key_type_label"),
+			cert_file_mode: u64_of(p, "cert_file_mode", crate::DEFAULT_CERT_FILE_MODE as u64) as u32,
+			cert_file_owner: os("cert_file_owner"),
+			cert_file_group: os("cert_file_group"),
+			cert_file_ext: os("cert_file_ext"),
+			pk_file_mode: u64_of(p, "pk_file_mode", crate::DEFAULT_PK_FILE_MODE as u64) as u32,
+			pk_file_owner: os("pk_file_owner"),
+			pk_file_group: os("pk_file_group"),
+			pk_file_ext: os("pk_file_ext"),
+			hooks: vec![],
+			env: HashMap::new(),
+		}
+	}
+	// ------------------------------------------------------------------ acctrt
+	fn account_dump(a: &Account) -> Value {
+		let key = |k: &crate::account::AccountKey| {
+			json!({
+				"creation_date": k.creation_date.duration_since(UNIX_EPOCH).map(|d| json!([d.as_secs(), d.subsec_nanos()])).unwrap_or(Value::Null),
+				"key_type": k.key.key_type.to_string(),
+				"der": k.key.private_key_to_der().map(|d| hex(&d)).unwrap_or_default(),
+				"pub_pem": k.key.public_key_to_pem().map(|d| String::from_utf8_lossy(&d).to_string()).unwrap_or_default(),
+				"signature_algorithm": k.signature_algorithm.to_string(),
+			})
+		};
+		let mut eps = serde_json::Map::new();
+		for (n, e) in a.endpoints.iter() {
+			eps.insert(
+				n.to_owned(),
+				json!({
+					"creation_date": e.creation_date.duration_since(UNIX_EPOCH).map(|d| json!([d.as_secs(), d.subsec_nanos()])).unwrap_or(Value::Null),
+					"account_url": e.account_url, "orders_url": e.orders_url,
+					"key_hash": hex(&e.key_hash), "contacts_hash": hex(&e.contacts_hash),
+					"external_account_hash": hex(&e.external_account_hash),
+				}),
+			);
+		}
+		json!({
+			"name": a.name,
+			"endpoints": eps,
+			"contacts": a.contacts.iter().map(|c| c.to_string()).collect::<Vec<String>>(),
+			"current_key": key(&a.current_key),
+			"past_keys": a.past_keys.iter().map(key).collect::<Vec<Value>>(),
+			"external_account": a.external_account.as_ref().map(|e| json!({
+				"identifier": e.identifier, "key": hex(&e.key),
+				"signature_algorithm": e.signature_algorithm.to_string()})),
+		})
+	}
+
+	fn ext_account(p: &Value) -> Option<ExternalAccount> {
+		p.get("eab").filter(|e| e.is_object()).map(|e| ExternalAccount {
+			identifier: str_of(e, "identifier"),
+			key: unhex(&str_of(e, "key_hex")),
+			signature_algorithm: str_of(e, "alg").parse().unwrap_or(JwsSignatureAlgorithm::Hs256),
+		})
+	}
+
+	async fn load_account(p: &Value, key_type: &str) -> Result<Account, acme_common::error::Error> {
+		let fm = mk_fm(p);
+		let contacts: Vec<(String, String)> = p
+			.get("contacts")
+			.and_then(|e| e.as_array())
+			.map(|a| a.iter().map(|c| ("mailto".to_string(), c.as_str().unwrap_or("").to_string())).collect())
+			.unwrap_or_default();
+		let sig = p.get("signature_algorithm").and_then(|e| e.as_str()).map(String::from);
+		Account::load(
+			&fm,
+			&str_of(p, "account_name"),
+			&contacts,
+			&Some(key_type.to_string()),
+			&sig,
+			&ext_account(p),
+		)
+		.await
+	}
+
+	// stdin line: {"dir":..,"account_name":..,"contacts":[..],"key_types":[k0,k1,..],
+	//   "endpoints":[{"name":..,"url":..,"orders":..}], "eab":{..}|null}
+	// Builds the account through the real load path (key_types[0] creates it, each
+	// further key type is a configuration change handled by load → update_keys),
+	// records endpoint data through the real setters, saves, and loads again.
+	pub fn cmd_acctrt() {
+		let r = rt(2);
+		for l in stdin_lines() {
+			let p: Value = serde_json::from_str(&l).unwrap();
+			out(&json!({"id": p.get("id"), "begin": true}));
+			let kts: Vec<String> = p["key_types"].as_array().unwrap().iter().map(|e| e.as_str().unwrap().to_string()).collect();
+			r.block_on(async {
+				let mut acc = match load_account(&p, &kts[0]).await {
+					Ok(a) => a,
+					Err(e) => {
+						out(&json!({"id": p.get("id"), "ok": false, "stage": "create", "err": e.message}));
+						return;
+					}
+				};
+				let eps = p.get("endpoints").and_then(|e| e.as_array()).cloned().unwrap_or_default();
+				let setup = |acc: &mut Account| -> Result<(), acme_common::error::Error> {
+					for e in eps.iter() {
+						let n = str_of(e, "name");
+						acc.add_endpoint_name(&n);
+						acc.set_account_url(&n, &str_of(e, "url"))?;
+						acc.set_orders_url(&n, &str_of(e, "orders"))?;
+						acc.update_key_hash(&n)?;
+						acc.update_contacts_hash(&n)?;
+						acc.update_external_account_hash(&n)?;
+					}
+					Ok(())
+				};
+				if let Err(e) = setup(&mut acc) {
+					out(&json!({"id": p.get("id"), "ok": false, "stage": "setup", "err": e.message}));
+					return;
+				}
+				if let Err(e) = acc.save().await {
+					out(&json!({"id": p.get("id"), "ok": false, "stage": "save", "err": e.message}));
+					return;
+				}
+				let mut before = account_dump(&acc);
+				let mut steps = vec![];
+				for kt in kts.iter().skip(1) {
+					// restart with a changed key type
+					match load_account(&p, kt).await {
+						Ok(a) => {
+							steps.push(json!({"key_type": kt, "before": before, "after": account_dump(&a)}));
+							before = account_dump(&a);
+						}
+						Err(e) => {
+							out(&json!({"id": p.get("id"), "ok": false, "stage": "reload-keychange", "err": e.message}));
+							return;
+						}
+					}
+				}
+				let last_kt = kts.last().unwrap();
+				match load_account(&p, last_kt).await {
+					Ok(a) => out(&json!({"id": p.get("id"), "ok": true, "steps": steps,
+						"saved": before, "loaded": account_dump(&a)})),
+					Err(e) => out(&json!({"id": p.get("id"), "ok": false, "stage": "reload", "err": e.message})),
+				}
+			});
+		}
+	}
+
+	// stdin line: same account parameters; only tries to load (used for truncated files)
+	pub fn cmd_acctload() {
+		let r = rt(2);
+		for l in stdin_lines() {
+			let p: Value = serde_json::from_str(&l).unwrap();
+			out(&json!({"id": p.get("id"), "begin": true}));
+			let kt = str_of(&p, "key_type");
+			r.block_on(async {
+				match load_account(&p, &kt).await {
+					Ok(mut a) => {
+						// optional: save the loaded account again into another (empty) directory
+						let mut resaved = Value::Null;
+						if let Some(dst) = p.get("resave_dir").and_then(|e| e.as_str()) {
+							a.file_manager.account_directory = dst.to_string();
+							let r = a.save().await;
+							resaved = json!({"ok": r.is_ok(), "err": r.err().map(|e| e.message)});
+						}
+						out(&json!({"id": p.get("id"), "ok": true, "loaded": account_dump(&a), "resaved": resaved}))
+					}
+					Err(e) => out(&json!({"id": p.get("id"), "ok": false, "err": e.message})),
+				}
+			});
+		}
+	}
+
+}
